@@ -143,6 +143,7 @@ impl<'a> Exec<'a> {
         w.mem.reset(cfg.garbage_seed);
         w.mem.zero_data = if cfg.zero_data { Some(cfg.zone_seed) } else { None };
         w.mem.even_garbage = cfg.even_garbage;
+        w.mem.sparse_garbage = cfg.sparse_garbage;
         w.cpu = Cpu::default();
         w.cpu.cr3 = cfg.p4_frame | cfg.cr3_low as u64;
         if cfg.pcide {
